@@ -200,7 +200,7 @@ def lookup (entries : List Entry) (s : HState) : Look → HState × Except Res N
     (c.1, .ok c.2)
   | .exportStruct pkg raw m =>
     let r := getOrCreate s.exports (pkg, raw) (pkg, bracket raw)
-    let c := cached { s with exports := r.1 } ⟨2, pkg, raw, false, m⟩ true (objName r.2.1 r.2.2 m)
+    let c := cached { s with exports := r.1 } ⟨2, pkg, raw, false, m⟩ true (objName (symPrefix r.2.1) r.2.2 m)
     (c.1, .ok c.2)
 
 /-! ## mocker operations -/
@@ -262,7 +262,7 @@ def applyCb (syms : List Str) (s : HState) (id : Nat) (k : Nat) : HState × Res 
 
 /-- the symbol a directly constructed mocker patches: `objName` (mocker.go:373), resp. reflect resolution -/
 def directName (entries : List Entry) : Direct → Except Str Str
-  | .um pkg sn m => .ok (objName pkg sn m)
+  | .um pkg sn m => .ok (objName (symPrefix pkg) sn m)
   | .mm t m => resolveSM entries t m
 
 def Direct.byName : Direct → Bool
@@ -407,6 +407,6 @@ def embed : Method.Step → Step
 def keyName (entries : List Entry) (k : CKey) : Option Str :=
   if k.lane = 0 then (match resolveSM entries ⟨k.pkg, k.ty, k.ptr⟩ k.m with | .ok n => some n | .error _ => none)
   else if k.lane = 1 then some (exportMethodName ⟨k.pkg, k.ty, k.ptr⟩ k.m)
-  else some (objName k.pkg (bracket k.ty) k.m)
+  else some (objName (symPrefix k.pkg) (bracket k.ty) k.m)
 
 end MethodH
